@@ -357,8 +357,8 @@ ID_RULE = ("one evaluation = one thread lifetime (claim an ID, run, exit) in wav
 def storm_jobs(tier, seed):
     caps = [2, 3, 8] if tier == "quick" else [2, 3, 5, 8, 16]
     # the ID table kept full and over-subscribed by 3N drivers, no injected delays (narrow races in the claim loop)
-    jobs = thr_jobs("churnstorm", caps, seed + 17, 3 if tier == "quick" else 16, 2 if tier == "quick" else 10, cost=8,
-                    extra=lambda rng, n, i: {"preempt": i % 2})
+    jobs = thr_jobs("churnstorm", caps, seed + 17, 4 if tier == "quick" else 16, 2 if tier == "quick" else 10, cost=8,
+                    extra=lambda rng, n, i: {"preempt": (i // 2) % 2, "heavy": (i + 1) % 2})
     # N threads released from a spin barrier onto one probe position
     jobs += thr_jobs("storm", caps, seed + 9, 2 if tier == "quick" else 12, 1 if tier == "quick" else 4, cost=4)
     # randomised start/exit histories with an exact expectation after every step (holders = min(N, threads alive))
